@@ -32,13 +32,16 @@ pub struct Cfg { pub kind: &'static str, pub m: usize, pub exec: Exec, pub limit
     /// `cancel_all_streams()` is called right before the close (cancelled streams still drain what is buffered; the close must still wait for them)
     pub cancel_before_close: bool,
     /// a second close() is issued concurrently with the first; each must satisfy the postcondition at its own return
-    pub second_close: bool }
+    pub second_close: bool,
+    /// before the unbounded close: 0 nothing; 1 a close with a deadline of 1-3 ms (which may expire: it then answers false and the streams stay told to end);
+    /// 2 an unbounded close that the caller abandons (its future is dropped) after 1 ms. Either way the unbounded close that follows must wait for everything
+    pub earlier_close: u8 }
 impl Cfg {
     pub fn json(&self) -> J {
         J::obj().with("channel", J::s(self.kind)).with("MAX_STREAMS", J::i(self.m as i64)).with("executor", J::s(format!("{:?}", self.exec))).with("concurrency_limit", J::i(self.limit as i64)).with("runtime", J::s(self.rt.describe()))
             .with("events", J::i(self.items.len() as i64)).with("per_event_behaviour", J::s(format!("{:?}", &self.items[..self.items.len().min(24)]))).with("listeners", J::i(self.listeners as i64))
             .with("yields_between_last_send_and_close", J::i(self.pause_before_close as i64)).with("a_listener_dropped_before_the_close", J::Bool(self.drop_one_stream_first))
-            .with("futures_timeout", J::s(if self.with_timeout { "10 s (never fires)" } else { "none" })).with("cancel_all_streams_before_close", J::Bool(self.cancel_before_close)).with("second_concurrent_close", J::Bool(self.second_close))
+            .with("futures_timeout", J::s(if self.with_timeout { "10 s (never fires)" } else { "none" })).with("cancel_all_streams_before_close", J::Bool(self.cancel_before_close)).with("earlier_close", J::s(["none", "with a deadline of a few ms (may expire)", "unbounded, abandoned by its caller after 1 ms"][self.earlier_close as usize])).with("second_concurrent_close", J::Bool(self.second_close))
     }
 }
 
@@ -113,6 +116,11 @@ where C: FullDuplexUniChannel<ItemType = Tok, DerivedItemType = D> + Send + Sync
         let (u2, l2, ids2) = (uni.clone(), ledger.clone(), accepted_ids.clone());
         Some(tokio::spawn(async move { let a = u2.close(Duration::ZERO).await; let st = l2.state.lock().unwrap().clone(); let unf: Vec<(usize, u32, u8)> = ids2.iter().map(|e| *e as usize).filter(|e| st[*e] != 2).map(|e| (0usize, e as u32, st[e])).collect(); (a, unf, u2.channel.running_streams_count()) }))
     } else { None };
+    match cfg.earlier_close {
+        1 => { let _ = uni.close(Duration::from_millis(1 + (accepted % 3) as u64)).await; }
+        2 => { let _ = tokio::time::timeout(Duration::from_millis(1), uni.close(Duration::ZERO)).await; }
+        _ => {}
+    }
     let close_answer = uni.close(Duration::ZERO).await;
     // ---- the snapshot, taken by the closing task right after the await
     let st = ledger.state.lock().unwrap().clone();
@@ -164,6 +172,11 @@ where C: FullDuplexMultiChannel<ItemType = Tok, DerivedItemType = D> + Send + Sy
         Some(tokio::spawn(async move { let a = m2.close(Duration::ZERO).await; let st = l2.state.lock().unwrap().clone(); let mut unf = Vec::new();
             for l in 0..nl { for e in ids2.iter().map(|e| *e as usize) { let s = st[slot(l, e as u64, ne) as usize]; if s != 2 { unf.push((l, e as u32, s)) } } } (a, unf, m2.channel.running_streams_count()) }))
     } else { None };
+    match cfg.earlier_close {
+        1 => { let _ = multi.close(Duration::from_millis(1 + (accepted % 3) as u64)).await; }
+        2 => { let _ = tokio::time::timeout(Duration::from_millis(1), multi.close(Duration::ZERO)).await; }
+        _ => {}
+    }
     let close_answer = multi.close(Duration::ZERO).await;
     let st = ledger.state.lock().unwrap().clone();
     let mut unfinished = Vec::new();
@@ -211,7 +224,7 @@ pub fn draw_cfg(rng: &mut Rng, only: Option<&str>) -> Cfg {
     let futures = matches!(exec, Exec::FuturesFallible | Exec::Futures);
     let items: Vec<Item> = (0..n_events).map(|_| if !futures { if exec == Exec::Fallibles && rng.chance(1, 5) { Item::Fails } else { Item::Sync } } else { match rng.below(10) { 0..=2 => Item::Ready, 3..=5 => Item::Yields(1 + rng.below(3) as u8), 6..=8 => Item::Sleeps(1 + rng.below(5) as u8), _ => if exec == Exec::FuturesFallible { Item::Fails } else { Item::Ready } } }).collect();
     Cfg { kind, m: 1 + rng.below(2) as usize, exec, limit: 1 + rng.below(4) as u32, rt, items, listeners: if multi { 1 + rng.below(3) as usize } else { 1 }, pause_before_close: rng.below(4) as u8, drop_one_stream_first: multi && rng.chance(1, 4),
-          with_timeout: futures && rng.chance(1, 2), cancel_before_close: rng.chance(1, 5), second_close: rng.chance(1, 5) }
+          with_timeout: futures && rng.chance(1, 2), cancel_before_close: rng.chance(1, 5), second_close: rng.chance(1, 5), earlier_close: if rng.chance(1, 4) { 1 + rng.below(2) as u8 } else { 0 } }
 }
 
 pub fn run(args: &Args, acc: &mut Acc) { run_loop(args, acc, single) }
@@ -251,7 +264,7 @@ fn storm(args: &Args, acc: &mut Acc, seed: u64, verbose: bool) {
         let futures = matches!(exec, Exec::FuturesFallible | Exec::Futures);
         let items: Vec<Item> = (0..rng.below(4)).map(|_| if futures { *rng.pick(&[Item::Ready, Item::Yields(1)]) } else { Item::Sync }).collect();
         cfgs.push(Cfg { kind, m: 1 + rng.below(2) as usize, exec, limit: 1 + rng.below(2) as u32, rt: Rt::Multi(workers), items, listeners: 1, pause_before_close: rng.below(2) as u8, drop_one_stream_first: false,
-                        with_timeout: false, cancel_before_close: rng.chance(1, 2), second_close: rng.chance(1, 3) });
+                        with_timeout: false, cancel_before_close: rng.chance(1, 2), second_close: rng.chance(1, 3), earlier_close: 0 });
     }
     let batch = cfgs.clone();
     let out = tk::run(Rt::Multi(workers), Duration::from_secs(120), move || async move {
@@ -287,6 +300,8 @@ fn judge(args: &Args, acc: &mut Acc, seed: u64, verbose: bool, cfg: &Cfg, snap: 
     if cfg.with_timeout { acc.count("runs_with_a_futures_timeout_set", 1) }
     if cfg.cancel_before_close { acc.count("runs_with_cancel_all_streams_right_before_the_close", 1) }
     if cfg.second_close { acc.count("runs_with_a_second_concurrent_close", 1) }
+    if cfg.earlier_close == 1 { acc.count("runs_with_an_earlier_close_that_had_a_deadline", 1) }
+    if cfg.earlier_close == 2 { acc.count("runs_with_an_earlier_close_abandoned_by_its_caller", 1) }
     if !cfg.items.is_empty() { acc.nontrivial(cfg.items.iter().fold(mix(seed & 0xFF, cfg.limit as u64 * 11 + cfg.listeners as u64), |h, i| mix(h, match i { Item::Sync => 1, Item::Ready => 2, Item::Yields(y) => 10 + *y as u64, Item::Sleeps(s) => 20 + *s as u64, Item::Fails => 3 })) ^ (cfg.kind.len() as u64) << 50 ^ cfg.exec as u64) }
     acc.sample(3, || J::obj().with("config", cfg.json()).with("in_flight_when_close_returned", J::i(s.in_flight)).with("close_callbacks_run_when_close_returned", J::i(s.close_calls_at_return)));
     if !problems.is_empty() {
